@@ -1128,7 +1128,7 @@ func TestVerifC43(t *testing.T) {
 		}
 	}
 	parent := NewThread(nil)
-	n := vk.N(240, 8000)
+	n := vk.N(240, 5000)
 	// cases are dealt round-robin over the shards so that every shard runs every scenario
 	for i := 0; i < n; i++ {
 		runCase(rep, parent, i*vk.NShards()+vk.Shard())
